@@ -299,6 +299,47 @@ pub fn run(ctx: &mut Ctx) {
                 }
             }
         }
+        // every share's OBJECT carries assertions of its own (a note, a salt): the shares still count
+        {
+            ctx.eval();
+            ctx.count("joins_with_decorated_share_objects");
+            let decorated: Vec<Envelope> = shares
+                .iter()
+                .flatten()
+                .enumerate()
+                .map(|(i, s)| {
+                    let a = s.assertions_with_predicate(known_values::SSKR_SHARE)[0].clone();
+                    let obj = a.as_object().unwrap();
+                    let obj = if i % 2 == 0 { obj.add_assertion("note", i as u64) } else { obj.add_salt() };
+                    s.remove_assertion(a).add_assertion(known_values::SSKR_SHARE, obj)
+                })
+                .collect();
+            match trap::guard(|| Envelope::sskr_join(&decorated.iter().collect::<Vec<&Envelope>>())) {
+                Ok(Ok(x)) if x.is_identical_to(&wrapped) => {}
+                Ok(Ok(_)) => ctx.violation("decorated-objects/wrong-envelope", "join returned another envelope", J::s(pol.clone())),
+                Ok(Err(err)) => ctx.violation("decorated-objects/quorum-rejected", &format!("policy {}: all shares present, each share object carrying an assertion of its own, but join failed: {}", pol, err), J::s(pol.clone())),
+                Err(p) => ctx.violation(&format!("decorated-objects/panic/{}", p.signature()), &format!("{:?}", p), J::s(pol.clone())),
+            }
+        }
+        // a forged FIRST envelope: a bare encrypted element made with the right content key that declares the
+        // original's digest but holds something else; the genuine shares follow. Never another envelope.
+        {
+            ctx.eval();
+            ctx.count("joins_with_forged_first_envelope");
+            let other = Envelope::new(format!("Pay Mallory {}", case)).wrap_envelope();
+            let declared = bc_components::DigestProvider::digest(&wrapped).into_owned();
+            let msg = key.encrypt_with_digest(other.tagged_cbor().to_cbor_data(), &declared, None::<bc_components::Nonce>);
+            if let Ok(forged) = Envelope::try_from(msg) {
+                let mut subset: Vec<&Envelope> = vec![&forged];
+                subset.extend(shares.iter().flatten());
+                match trap::guard(|| Envelope::sskr_join(&subset)) {
+                    Ok(Ok(x)) if x.is_identical_to(&wrapped) => {}
+                    Ok(Ok(x)) => ctx.violation("forged-first/other-envelope-returned", "join returned an envelope that is not the one that was shared (a forged first envelope declaring the original's digest)", jhex(&x)),
+                    Ok(Err(_)) => {}
+                    Err(p) => ctx.violation(&format!("forged-first/panic/{}", p.signature()), &format!("{:?}", p), J::s(pol.clone())),
+                }
+            }
+        }
         // decorated / obscured share assertions must not panic
         ctx.eval();
         ctx.count("decorated_share_checks");
